@@ -234,7 +234,10 @@ def delivery_class(got, want):
 
 
 def run_cfg(arg):
-    cfg, bound, cap = arg
+    """arg = (cfg, bound, cap, start): explore one first-level subtree
+    (start = (prefix, used)), or with start None the root execution only,
+    returning the list of subtrees."""
+    cfg, bound, cap, start = arg
     run = Run(PROP)
     stats = explore.Stats()
 
@@ -259,18 +262,30 @@ def run_cfg(arg):
         run.count('max_outstanding_%d' % max(wire.max_out.values()))
 
     explore.explore(lambda ch: execute(cfg, ch), bound, visit, max_execs=cap,
-                    stats=stats)
+                    stats=stats, start=start, children_only=start is None)
     run.count('executions', stats.executions)
     run.count('choice_points', stats.choice_points)
-    run.count('capped_configs', 1 if stats.capped else 0)
-    run.sample(dict(cfg=cfg, executions=stats.executions,
-                    max_choice_points=stats.max_depth))
-    return run.export()
+    run.count('capped_subtrees', 1 if stats.capped else 0)
+    if start is None:
+        run.sample(dict(cfg=cfg, first_level_subtrees=len(stats.children),
+                        choice_points_default_schedule=stats.max_depth))
+    out = run.export()
+    out['children'] = getattr(stats, 'children', [])
+    out['cfg'] = cfg
+    return out
 
 
 def configs(tier):
     out = []
     traced = ['tco.state']
+    if tier != 'thorough':
+        for rw, n, agf in (((1, 1), (3, 0), True), ((2, 2), (2, 2), True),
+                           ((2, 1), (3, 0), False), ((1, 2), (2, 2), False)):
+            out.append(dict(rw=rw, n=n, agf=agf, miu=128, size=20,
+                            traced=traced))
+        out.append(dict(rw=(1, 1), n=(3, 0), agf=True, miu=128, size=128,
+                        extra='busy', traced=traced))
+        return out
     for rw in ((1, 1), (2, 1), (1, 2), (2, 2)):
         for n in ((3, 0), (2, 2)):
             for agf in (True, False):
@@ -279,11 +294,15 @@ def configs(tier):
     for rw in ((1, 1), (2, 2)):
         out.append(dict(rw=rw, n=(3, 0), agf=True, miu=128, size=128,
                         extra='busy', traced=traced))
-    if tier == 'thorough':
-        out.append(dict(rw=(2, 2), n=(4, 3), agf=True, miu=129, size=129,
-                        traced=traced))
-        out.append(dict(rw=(3, 3), n=(4, 0), agf=False, miu=128, size=1,
-                        traced=traced))
+    out.append(dict(rw=(2, 2), n=(4, 3), agf=True, miu=129, size=129,
+                    traced=traced))
+    out.append(dict(rw=(3, 3), n=(4, 0), agf=False, miu=128, size=1,
+                    traced=traced))
+    # one deviation more on the two smallest scenarios
+    out.append(dict(rw=(1, 1), n=(2, 0), agf=True, miu=128, size=20,
+                    traced=traced, bound=3))
+    out.append(dict(rw=(1, 1), n=(1, 1), agf=False, miu=128, size=20,
+                    traced=traced, bound=3))
     return out
 
 
@@ -294,14 +313,22 @@ def main(tier='quick', seed=0, part=None):
     if part in (None, 'bfs'):
         bfs_cov = c05_bfs.run_into(run, tier, seed)
     sched_cfgs = []
-    bound = 3 if tier == 'thorough' else 2
+    bound = 2
     cap = 400000 if tier == 'thorough' else 30000
     if part in (None, 'sched'):
         sched_cfgs = configs(tier)
-        for res in par.pmap(run_cfg, [(c, bound, cap)
-                                      for c in par.shuffled(sched_cfgs, seed)]):
+        tasks = []
+        for res in par.pmap(run_cfg, [(c, c.get('bound', bound), cap, None)
+                                      for c in sched_cfgs]):
+            cfg = res.pop('cfg')
+            for child in res.pop('children'):
+                tasks.append((cfg, cfg.get('bound', bound), cap, child))
             run.merge(res)
-    capped = run.counters.get('capped_configs', 0)
+        for res in par.pmap(run_cfg, par.shuffled(tasks, seed), chunksize=4):
+            res.pop('cfg')
+            res.pop('children')
+            run.merge(res)
+    capped = run.counters.get('capped_subtrees', 0)
     run.rule = (
         "bfs: every history of {send, recv, poll acks, busy on/off, A->B, "
         "B->A exchange, close} up to the message budget, states deduplicated "
@@ -320,6 +347,8 @@ def main(tier='quick', seed=0, part=None):
     cov['sched_scenarios'] = len(sched_cfgs)
     cov['sched_executions'] = run.counters.get('executions', 0)
     cov['sched_deviation_bound_completed'] = bound
+    cov['sched_scenarios_with_bound_3'] = len(
+        [c for c in sched_cfgs if c.get('bound') == 3])
     cov['sched_scenarios_capped'] = capped
     cov['states'] = bfs_cov.get('states', 0) + run.counters.get(
         'choice_points', 0)
